@@ -22,3 +22,11 @@ func ConditionNameDoesntMatchError(conditionName string, conditionNestedName str
 		conditionNestedName,
 	)
 }
+
+func ConditionParameterMissingGenericTypeError(parameterName string, parameterType string) error {
+	return fmt.Errorf( //nolint:goerr113
+		"the '%s' parameter of type '%s' is missing its generic type",
+		parameterName,
+		parameterType,
+	)
+}
